@@ -5,10 +5,10 @@
 EXTENDS Recipients, Json
 
 E(w, f) == [w |-> w, f |-> f]
-Forms == {"iri", "https", "upper", "slash", "actor", "object"}
+Forms == {"iri", "https", "upper", "slash", "pathcase", "actor", "object"}
 Public == E(9, "iri")
 PoolA == {Nil, Public} \cup {E(w, f) : w \in {1, 2}, f \in Forms}                      \* with MaxTotal = 2
-PoolB == {Nil, Public, E(1, "iri"), E(1, "https"), E(1, "actor"), E(2, "iri"), E(2, "upper"), E(2, "object")}  \* MaxTotal = 3
+PoolB == {Nil, Public, E(1, "iri"), E(1, "https"), E(1, "actor"), E(2, "iri"), E(2, "pathcase"), E(2, "object")}  \* MaxTotal = 3
 PoolC == {Nil, E(1, "iri"), E(1, "slash"), E(2, "object"), E(3, "iri")}                \* MaxTotal = 4
 
 GHeads == [class : {"plain", "activity"}, actor : {Nil}, object : {Nil}]
